@@ -53,15 +53,21 @@ impl C01 {
     fn check(&self, cx: &mut Cx, lib: &GdsLibrary, in_limit: bool, via_file: bool, desc: &str) {
         cx.eval();
         let path = cx.tmp("c01.gds");
-        let stale = cx.n % 2 == 0;
-        if via_file && stale {
-            cx.count("saved_over_existing_longer_file");
+        // history dimension: 0 fresh path, 1 over a much longer file, 2 over a different file of exactly the same length
+        let stale = cx.n % 3;
+        if via_file && stale > 0 {
+            cx.count(if stale == 1 { "saved_over_existing_longer_file" } else { "saved_over_existing_same_length_file" });
         }
         let written = guard(|| -> Result<Vec<u8>, String> {
             if via_file {
                 // history dimension: every other case saves over an existing, much longer file
-                if stale {
+                if stale == 1 {
                     std::fs::write(&path, vec![0xA5u8; 300_000]).map_err(|e| e.to_string())?;
+                } else if stale == 2 {
+                    let mut same = Vec::new();
+                    if lib.write(&mut same).is_ok() {
+                        std::fs::write(&path, vec![0xA5u8; same.len()]).map_err(|e| e.to_string())?;
+                    }
                 }
                 lib.save(&path).map_err(|e| format!("{:?}", e))?;
                 let on_disk = std::fs::read(&path).map_err(|e| e.to_string())?;
@@ -83,7 +89,7 @@ impl C01 {
             }
             Ok(Err(e)) if e.starts_with("SAVE-DIFFERS-FROM-WRITE") => {
                 let _ = std::fs::remove_file(&path);
-                cx.violation("save-file-differs-from-write", json!({"case": desc, "what": e, "saved_over_existing_file": stale}));
+                cx.violation("save-file-differs-from-write", json!({"case": desc, "what": e, "saved_over_existing_file_mode": stale}));
                 return;
             }
             Ok(Err(e)) => {
